@@ -10,6 +10,8 @@
 -/
 import PtProofs.EvalLemmas
 import PtProofs.BasicIndexLemmas
+import PtProofs.StackConcatLemmas
+import PtProofs.ReshapeLemmas
 namespace Pt
 
 /-! ## re-exported slice / linearisation theorems (statements in SliceLemmas / BasicLemmas) -/
@@ -103,6 +105,125 @@ theorem lower_basic_correct (ix : List Spec.BIdx) (a : Arr Val) (i : Idx)
   simp only [eval, lookupArr_head, h1, List.drop_zero] at h2 ⊢
   simp only [h2, if_true, Spec.basicIndex]
 
+/-! ## stack -/
+
+/-- `numpy.stack(as, axis)` for any number of operands of any common shape `s`
+    (any rank), any `axis ≤ rank`; the bindings are `_in<k> ↦ as[k]`.
+    (`as ≠ []` follows from `hi`: the stacked shape has `as.length` along `axis`.) -/
+theorem lower_stack_correct (s : Shape) (axis : Nat) (as : List (Arr Val)) (i : Idx)
+    (hshape : ∀ a ∈ as, a.shape = s) (hax : axis ≤ s.length)
+    (hi : inB (Spec.stack s axis as .undef).shape i = true) :
+    eval (idxEnv i (Lower.inBinds as)) (Lower.stack as.length axis (s.length + 1))
+      = (Spec.stack s axis as .undef).get i := by
+  obtain ⟨hj, hin, haxi⟩ := inB_stack axis s as.length i hax (by simpa [Spec.stack] using hi)
+  have hlen : i.length = s.length + 1 := by
+    have := inB_length hi
+    simp only [Spec.stack, List.length_append, List.length_take, List.length_drop,
+      List.length_cons, List.length_nil] at this
+    omega
+  unfold Lower.stack
+  rw [eval_stackFrom (idxEnv i (Lower.inBinds as)) axis _ _ (i.getD axis 0)
+    (idxEnv_pt i _ axis haxi) as.length 0 (by omega) (by omega)]
+  have hsub : (((List.range (s.length + 1)).filter (· ≠ axis)).map Lower.ivar).map
+      (eval (idxEnv i (Lower.inBinds as))) = (i.eraseIdx axis).map fun x => Val.i (x : Nat) := by
+    rw [← filter_ne_map_getD, hlen, List.map_map, List.map_map]
+    apply List.map_congr_left
+    intro d hd
+    have hd' : d < i.length := by
+      have := (List.mem_filter.mp hd).1
+      simp at this; omega
+    simp only [Function.comp, Lower.ivar, eval_idx i _ d hd']
+  rw [eval_sub_of _ _ _ _ hsub, lookupArr_inBinds]
+  simp only [Spec.stack]
+  have hget : as[i.getD axis 0]? = some as[i.getD axis 0] := List.getElem?_eq_getElem hj
+  rw [hget]
+  have hsh := hshape _ (List.getElem_mem hj)
+  simp only [hsh, hin, if_true]
+
+/-! ## concatenate -/
+
+/-- `numpy.concatenate([a0, *rest], axis)`: any number of operands of any rank
+    that agree with `a0`'s shape except along `axis` (any lengths along `axis`,
+    including 0); the bindings are `_in<k> ↦ as[k]`. -/
+theorem lower_concat_correct (axis : Nat) (a0 : Arr Val) (rest : List (Arr Val)) (i : Idx)
+    (hax : axis < a0.shape.length)
+    (hshape : ∀ a ∈ a0 :: rest, a.shape = a0.shape.set axis (a.shape.getD axis 0))
+    (hi : inB (Spec.concatenate axis (a0 :: rest) .undef).shape i = true) :
+    eval (idxEnv i (Lower.inBinds (a0 :: rest)))
+        (Lower.concat ((a0 :: rest).map (·.shape.getD axis 0)) axis a0.shape.length)
+      = (Spec.concatenate axis (a0 :: rest) .undef).get i := by
+  generalize has : a0 :: rest = as at *
+  have hs0 : (as.head?.map (·.shape)).getD [] = a0.shape := by rw [← has]; rfl
+  simp only [Spec.concatenate, hs0] at hi ⊢
+  have hlen : i.length = a0.shape.length := by
+    have := inB_length hi; simpa using this
+  have haxi : axis < i.length := by omega
+  have hj : i.getD axis 0 < (as.map (·.shape.getD axis 0)).sum := by
+    have := inB_getD_lt axis hi (by simpa using hax)
+    simpa [List.getD, List.getElem?_set, hax] using this
+  obtain ⟨k, o, hloc, hk, ho, hoj⟩ := concatLocate_spec _ _ hj
+  unfold Lower.concat
+  rw [← hlen, eval_concatFrom i _ axis haxi _ 0 0 k o (Nat.zero_le _) (by simpa using hloc)]
+  have hix := shiftIx_eval i (Lower.inBinds as) axis (i.getD axis 0 - o) (by omega)
+  have e : i.getD axis 0 - (i.getD axis 0 - o) = o := by omega
+  rw [e] at hix
+  rw [eval_sub_of _ _ _ _ hix, Nat.zero_add, lookupArr_inBinds, hloc]
+  have hk' : k < as.length := by simpa using hk
+  have hget : as[k]? = some as[k] := List.getElem?_eq_getElem hk'
+  have hsh := hshape _ (List.getElem_mem hk')
+  have ho' : o < as[k].shape.getD axis 0 := by
+    simpa [List.getD, List.getElem?_map, hget] using ho
+  have hin : inB as[k].shape (i.set axis o) = true := by
+    rw [hsh]; exact inB_set_set _ _ _ _ _ _ hi ho'
+  simp only [hget, hin, if_true]
+
+/-! ## reshape: one axis group (`_generate_index_expressions`) -/
+
+/-- C order: for any non-scalar old shape and any new shape of the same size,
+    whichever branch `_generate_index_expressions` takes (pass-through for
+    `old = new`, or mixed-radix digits of the flattened index, with the
+    `% old_size` and `// 1` shortcuts), the subscript reads NumPy's element. -/
+theorem lower_reshape1_correct_C (old new : Shape) (a : Arr Val) (i : Idx) (ix : List SExpr)
+    (ha : a.shape = old) (hne : old ≠ []) (hprod : prod old = prod new)
+    (hi : inB new i = true)
+    (hg : Lower.genIdx .C old new ((List.range new.length).map Lower.ivar) = some ix) :
+    eval (idxEnv i [("_in0", a)]) (.sub "_in0" ix) = (Spec.reshapeC new a).get i := by
+  rw [reshape1_eval .C old new a i ix ha hne hprod hi hg, Spec.reshapeC, ha]; rfl
+
+/-- Fortran order, as `lower_reshape1_correct_C` -/
+theorem lower_reshape1_correct_F (old new : Shape) (a : Arr Val) (i : Idx) (ix : List SExpr)
+    (ha : a.shape = old) (hne : old ≠ []) (hprod : prod old = prod new)
+    (hi : inB new i = true)
+    (hg : Lower.genIdx .F old new ((List.range new.length).map Lower.ivar) = some ix) :
+    eval (idxEnv i [("_in0", a)]) (.sub "_in0" ix) = (Spec.reshapeF new a).get i := by
+  rw [reshape1_eval .F old new a i ix ha hne hprod hi hg, Spec.reshapeF, ha]; rfl
+
+/-! ## reshape: the full grouped algorithm (`_get_reshaped_indices`, `map_reshape`) -/
+
+/-- C order: for any old and new shape of the same size (any ranks, incl. scalars,
+    zero-length and length-1 axes), whenever the axis-grouping algorithm produces
+    an expression, it reads NumPy's element at every in-bounds index. -/
+theorem lower_reshape_correct_C (old new : Shape) (a : Arr Val) (i : Idx) (e : SExpr)
+    (ha : a.shape = old) (hprod : prod old = prod new) (hi : inB new i = true)
+    (hg : Lower.reshape .C old new = some e) :
+    eval (idxEnv i [("_in0", a)]) e = (Spec.reshapeC new a).get i := by
+  rw [reshape_eval .C old new a i e ha hprod hi hg, Spec.reshapeC, ha]; rfl
+
+/-- Fortran order, as `lower_reshape_correct_C` -/
+theorem lower_reshape_correct_F (old new : Shape) (a : Arr Val) (i : Idx) (e : SExpr)
+    (ha : a.shape = old) (hprod : prod old = prod new) (hi : inB new i = true)
+    (hg : Lower.reshape .F old new = some e) :
+    eval (idxEnv i [("_in0", a)]) e = (Spec.reshapeF new a).get i := by
+  rw [reshape_eval .F old new a i e ha hprod hi hg, Spec.reshapeF, ha]; rfl
+
+/-- the hypothesis `Lower.reshape o old new = some e` of the two theorems above
+    holds for every pair of shapes of equal size: the algorithm never gives up
+    (none of the Python `assert`s can fire). -/
+theorem lower_reshape_total (o : Lower.Order) (old new : Shape) (hprod : prod old = prod new) :
+    (Lower.reshape o old new).isSome = true := by
+  obtain ⟨e, he⟩ := reshape_total o old new hprod
+  rw [he]; rfl
+
 /-! ## non-vacuity: concrete instances satisfying the hypotheses -/
 
 /-- a 2×3 test array with entries 1..6 -/
@@ -116,5 +237,43 @@ example : Lower.validIx exArr.shape [.int (-1), .slice none (some (-5)) (-2)] :=
   simp [Lower.validIx, exArr, Arr.ofList]
 example : inB (Spec.basicIndex [.int (-1), .slice none (some (-5)) (-2)] exArr).shape [1] = true := by
   decide
+
+/-- a second 2×3 array (entries 101..106) and a 2×2 one (entries 201..204) -/
+def exArr2 : Arr Val := Arr.ofList [2, 3] [.i 101, .i 102, .i 103, .i 104, .i 105, .i 106] .undef
+def exArr3 : Arr Val := Arr.ofList [2, 2] [.i 201, .i 202, .i 203, .i 204] .undef
+
+-- stack: two 2×3 operands along axis 1, output index [1, 1, 2]
+example : (∀ a ∈ [exArr, exArr2], a.shape = [2, 3]) ∧ 1 ≤ ([2, 3] : Shape).length
+    ∧ inB (Spec.stack [2, 3] 1 [exArr, exArr2] .undef).shape [1, 1, 2] = true := by decide
+example : (Spec.stack [2, 3] 1 [exArr, exArr2] .undef).get [1, 1, 2] = .i 106 := by decide
+example : eval (idxEnv [1, 1, 2] (Lower.inBinds [exArr, exArr2])) (Lower.stack 2 1 3) = .i 106 := by
+  decide
+-- concatenate: 2×3 and 2×2 along axis 1, output index [1, 4] (inside the second operand)
+example : 1 < exArr.shape.length
+    ∧ (∀ a ∈ [exArr, exArr3], a.shape = exArr.shape.set 1 (a.shape.getD 1 0))
+    ∧ inB (Spec.concatenate 1 [exArr, exArr3] .undef).shape [1, 4] = true := by decide
+example : (Spec.concatenate 1 [exArr, exArr3] .undef).get [1, 4] = .i 204 := by decide
+example : eval (idxEnv [1, 4] (Lower.inBinds [exArr, exArr3])) (Lower.concat [3, 2] 1 2) = .i 204 := by
+  decide
+-- reshape, one group: general branch ([2,3] → [3,2]) and pass-through ([2,3] → [2,3]), both orders
+example : exArr.shape = [2, 3] ∧ ([2, 3] : Shape) ≠ [] ∧ prod [2, 3] = prod [3, 2]
+    ∧ inB [3, 2] [2, 1] = true
+    ∧ (Lower.genIdx .C [2, 3] [3, 2] ((List.range 2).map Lower.ivar)).isSome = true
+    ∧ (Lower.genIdx .F [2, 3] [3, 2] ((List.range 2).map Lower.ivar)).isSome = true
+    ∧ (Lower.genIdx .C [2, 3] [2, 3] ((List.range 2).map Lower.ivar)).isSome = true := by decide
+example : (Spec.reshapeC [3, 2] exArr).get [2, 1] = .i 6
+    ∧ (Spec.reshapeF [3, 2] exArr).get [1, 1] = .i 3 := by decide
+example : (Lower.reshape .C [2, 3] [3, 2]).map (eval (idxEnv [2, 1] [("_in0", exArr)])) = some (.i 6)
+    ∧ (Lower.reshape .F [2, 3] [3, 2]).map (eval (idxEnv [1, 1] [("_in0", exArr)])) = some (.i 3) := by
+  decide
+-- reshape, grouped: [2,3,1,4] → [6,2,2] (groups [2,3]→[6], [1]→[], [4]→[2,2]), both orders;
+-- a scalar source; shapes with a 0
+example : prod [2, 3, 1, 4] = prod [6, 2, 2] ∧ inB [6, 2, 2] [5, 1, 0] = true
+    ∧ (Lower.reshape .C [2, 3, 1, 4] [6, 2, 2]).isSome = true
+    ∧ (Lower.reshape .F [2, 3, 1, 4] [6, 2, 2]).isSome = true
+    ∧ (Lower.groups [2, 3, 1, 4] [6, 2, 2]) =
+        some [⟨[2, 3], [6]⟩, ⟨[1], []⟩, ⟨[4], [2, 2]⟩]
+    ∧ (Lower.reshape .C [] [1, 1]).isSome = true
+    ∧ (Lower.reshape .C [2, 0] [0, 3]).isSome = true := by decide
 
 end Pt
